@@ -141,6 +141,60 @@ STREAM_NOTES = [
 ]
 
 
+HANDLER_NOTES = [
+    ("static_source_folder::Folder as versatiles::tools::server::sources::static_source::StaticSourceTrait>::get_data", "unwrap", "read_to_end",
+     "reading a file that was just opened: fails only on an I/O error of the local disk, not because of the request text"),
+    ("static_source_tar::TarFile as versatiles::tools::server::sources::static_source::StaticSourceTrait>::get_data", "index", "url.str[1..]",
+     "every Url is built by Url::new / Url::push, which make str start with '/' (one ASCII byte), so 1 is a char boundary within the string"),
+    ("static_source::StaticSource::get_data", "unwrap", "Url::strip_prefix", "dominated by `if !url.starts_with(&self.prefix) { return None }`, the condition strip_prefix checks"),
+    ("add_tile_sources_to_app::serve_tile", "unwrap", "Url::strip_prefix", "the handler is registered on the route `<prefix>*path`, so axum only calls it for paths that start with the prefix"),
+    ("tile_server::ok_data", "unwrap", "optimize_compression", "E-COMP-OPT shows Err only when identity is not allowed, and get_encoding always allows it; otherwise only a stored tile that does not decode (corrupt source)"),
+    ("tile_server::ok_data", "unwrap", "Builder::body", "header names are constants and values come from the constant mime/encoding tables; the request text never reaches a header value"),
+    ("utils::url::Url::as_path", "index", "self.str[1..]", "str starts with '/' by construction (Url::new, Url::push)"),
+    ("utils::url::Url::strip_prefix", "index", "self.str[prefix.str.len()..]", "dominated by ensure!(self.str.starts_with(&prefix.str)): the prefix length is a char boundary inside the string"),
+]
+
+
+HANDLER_ARITH = [
+    ("<versatiles_container::container::mbtiles::reader::MBTilesReader as versatiles_core::types::tiles_reader::TilesReaderTrait>::get_tile_data|arith|2.pow() - 1",
+     "2^z >= 1 for every z, and z <= 31 (TileCoord3::new) keeps the power inside u32"),
+    ("<versatiles_core::types::tile_coords::TileCoord3 as versatiles_core::utils::transform_coord::TransformCoord>::flip_y|arith|2.pow() - 1",
+     "2^z >= 1 for every z, and z <= 31 (TileCoord3::new) keeps the power inside u32"),
+]
+
+
+def handler_table(P):
+    from rules import c05
+    hs = c05.handlers(P)
+    seen = P.reachable(hs)
+    t19 = census.load_table("panic_sites.json")
+    tst = census.load_table("stream_sites.json")
+    out, unc, used = [], [], set()
+    for fq in sorted(seen):
+        b = P.fn(fq)
+        for s in census.collect_sites(P, b):
+            if census.auto_discharge(s) or s.key in t19 or s.key in tst:
+                continue
+            hit = None
+            for i, (fn, kind, sub, reason) in enumerate(HANDLER_NOTES):
+                if fn in s.fn and kind == s.kind and sub in s.desc:
+                    hit = (i, reason)
+                    break
+            if hit is None:
+                unc.append(s)
+                continue
+            used.add(hit[0])
+            out.append({"key": s.key, "reason": hit[1]})
+    # arithmetic on request coordinates (R-REQ-ARITH): exact keys
+    for key, reason in HANDLER_ARITH:
+        out.append({"key": key, "reason": reason})
+    with open(os.path.join(HERE, "tables", "handler_sites.json"), "w") as fh:
+        json.dump({"comment": "reviewed panic-capable sites reachable from the HTTP handlers (C05 R-HANDLER-TOTAL)", "sites": out}, fh, indent=1)
+    print("handler table: %d entries; %d notes unused; %d uncovered" % (len(out), len(HANDLER_NOTES) - len(used), len(unc)))
+    for s in unc:
+        print("  uncovered:", s.key, s.loc)
+
+
 def stream_table(P):
     from rules import c02
     E = c02.stream_entries(P)
@@ -176,6 +230,7 @@ def main():
     crates, th = facts.load()
     P = ir.Program(crates, th)
     stream_table(P)
+    handler_table(P)
     E = c19.entries(P)
     seen = P.reachable(E)
     out, uncovered, used_notes = [], [], set()
